@@ -165,3 +165,118 @@ Example C10_value_local_example :
   fits_prefix vl_cols vl_ds /\ fits_prefix vl_cols (upd 1 (DShort [x78; x79; x7a]) vl_ds) /\ nums_ok vl_cols 0 /\
   same_shape (nth 1 vl_ds DNull) (DShort [x78; x79; x7a]).
 Proof. exact vl_example. Qed.
+
+(* ================= extension: WAL and index page locality, further cost bounds =================
+   Qualified names: the models of C17 / C18 / C20 / C08 / C14 reuse short names of the models imported above. *)
+Require PG.C17.Names PG.C17.Model PG.C18.Types PG.C18.Model PG.C20.RelmapModel PG.C08.Model PG.C08.TableModel PG.C14.Model.
+Require PG.C10.WalLocal PG.C10.IndexLocal PG.C10.Cost2.
+
+(* ---- WAL page locality, ALL byte strings (no well-formedness), all capacity tails ----
+   wal_page_recs p = what parseWALPage reports for the 8192 bytes p on their own (nothing for an invalid page),
+   wal_recs v      = what ParseWALFile reports for the bytes v (nothing for a trailing partial page or v shorter than 40).
+   No offset shift is needed: a record's LSN comes from its page's own xlp_pageaddr (wal.go:204), not from the page's
+   position in the file; baseOffset / pageNum are dead parameters.  A record continuing on the next page is reported from
+   its header alone and the next page skips the continuation by its OWN xlp_rem_len; an invalid page is skipped by
+   `continue` - so there is no cross-page dependency and nothing to refute. *)
+Theorem C10_wal_file_is_pure : forall s,
+  exists r, PG.C17.Model.ParseWALFile s = Ok (Some r) /\ PG.C10.WalLocal.outcome_of r = PG.C10.WalLocal.wal_file (vis s).
+Proof. exact PG.C10.WalLocal.ParseWALFile_pure. Qed.
+Theorem C10_wal_page_is_pure : forall v t base,
+  exists r, PG.C17.Model.parseWALPage {| vis := v; tail := t |} base = Ok (Some r) /\
+            PG.C10.WalLocal.wal_page_recs v = match r with PG.C17.Model.PRecs l => l | _ => [] end.
+Proof. exact PG.C10.WalLocal.wal_page_recs_spec. Qed.
+Theorem C10_wal_page_local : forall a p b t,
+  blen a mod 8192 = 0 -> blen p = 8192 ->
+  PG.C17.Model.ParseWALFile {| vis := a ++ p ++ b; tail := t |} =
+  Ok (Some (PG.C17.Model.FRecs (PG.C10.WalLocal.wal_recs a ++ PG.C10.WalLocal.wal_page_recs p ++ PG.C10.WalLocal.wal_recs b))).
+Proof. exact PG.C10.WalLocal.wal_page_local_model. Qed.
+(* replacing one page by ANY 8192 bytes: the records of all other pages are reported unchanged, in place *)
+Theorem C10_wal_page_damage_local : forall a p p' b t t',
+  blen a mod 8192 = 0 -> blen p = 8192 -> blen p' = 8192 ->
+  exists mid mid',
+    PG.C17.Model.ParseWALFile {| vis := a ++ p ++ b; tail := t |} =
+      Ok (Some (PG.C17.Model.FRecs (PG.C10.WalLocal.wal_recs a ++ mid ++ PG.C10.WalLocal.wal_recs b))) /\
+    PG.C17.Model.ParseWALFile {| vis := a ++ p' ++ b; tail := t' |} =
+      Ok (Some (PG.C17.Model.FRecs (PG.C10.WalLocal.wal_recs a ++ mid' ++ PG.C10.WalLocal.wal_recs b))).
+Proof. exact PG.C10.WalLocal.wal_page_damage_local. Qed.
+Print Assumptions C10_wal_page_local.
+Print Assumptions C10_wal_page_damage_local.
+
+(* ---- index page locality, ALL byte strings, all capacity tails ----
+   The access method is decided ONCE from the first page (idx_type (first 8192 bytes) = detectIndexType of it); entry j is
+   idx_page (bytes of page j) j method: a function of page j's bytes, the method and j only. *)
+Theorem C10_index_file_is_pure : forall s, PG.C18.Model.ParseIndexFile s = Ok (PG.C10.IndexLocal.idx_file (vis s)).
+Proof. exact PG.C10.IndexLocal.ParseIndexFile_pure. Qed.
+Theorem C10_index_entry_local : forall s,
+  8192 <= len s ->
+  exists info, PG.C18.Model.ParseIndexFile s = Ok (Some info) /\
+    PG.C18.Types.ii_type info = PG.C10.IndexLocal.idx_type (sub (vis s) 0 8192) /\
+    Z.of_nat (length (PG.C18.Types.ii_pages info)) = len s / 8192 /\
+    forall j, 0 <= j < len s / 8192 ->
+      nth_error (PG.C18.Types.ii_pages info) (Z.to_nat j) =
+      Some (PG.C10.IndexLocal.idx_page (sub (vis s) (j * 8192) (j * 8192 + 8192)) j (PG.C18.Types.ii_type info)).
+Proof. exact PG.C10.IndexLocal.index_entry_local. Qed.
+(* the entry list splits at every page boundary (every method ty, numbering from num) *)
+Theorem C10_index_page_local : forall a p b num ty,
+  blen a mod 8192 = 0 -> blen p = 8192 ->
+  PG.C10.IndexLocal.idx_all (a ++ p ++ b) num ty =
+  PG.C10.IndexLocal.idx_all a num ty ++ [PG.C10.IndexLocal.idx_page p (num + blen a / 8192) ty] ++
+  PG.C10.IndexLocal.idx_all b (num + blen a / 8192 + 1) ty.
+Proof. exact PG.C10.IndexLocal.index_page_local. Qed.
+(* damage to a page OTHER THAN THE FIRST (8192 <= |a|): type, totals, metapage summary and every other entry unchanged *)
+Theorem C10_index_page_damage_local : forall a p p' b t t',
+  blen a mod 8192 = 0 -> 8192 <= blen a -> blen p = 8192 -> blen p' = 8192 ->
+  exists i i' pre post x x',
+    PG.C18.Model.ParseIndexFile {| vis := a ++ p ++ b; tail := t |} = Ok (Some i) /\
+    PG.C18.Model.ParseIndexFile {| vis := a ++ p' ++ b; tail := t' |} = Ok (Some i') /\
+    PG.C18.Types.ii_type i = PG.C18.Types.ii_type i' /\ PG.C18.Types.ii_tstr i = PG.C18.Types.ii_tstr i' /\
+    PG.C18.Types.ii_total i = PG.C18.Types.ii_total i' /\ PG.C18.Types.ii_meta i = PG.C18.Types.ii_meta i' /\
+    PG.C18.Types.ii_levels i = PG.C18.Types.ii_levels i' /\ PG.C18.Types.ii_root i = PG.C18.Types.ii_root i' /\
+    PG.C18.Types.ii_pages i = pre ++ [x] ++ post /\ PG.C18.Types.ii_pages i' = pre ++ [x'] ++ post /\
+    Z.of_nat (length pre) = blen a / 8192.
+Proof. exact PG.C10.IndexLocal.index_page_damage_local. Qed.
+(* the unrestricted statement (without 8192 <= |a|) is FALSE, by design of the format guess: damage to page 0 can change
+   the method and with it the entry of an untouched page (B-tree leaf page 1 no longer reported as btree / leaf) *)
+Theorem C10_index_page0_local_refuted :
+  blen PG.C10.IndexLocal.bt_leaf_page = 8192 /\ blen (zeros 8192) = 8192 /\
+  exists i i',
+    PG.C18.Model.ParseIndexFile (exact (PG.C10.IndexLocal.bt_leaf_page ++ PG.C10.IndexLocal.bt_leaf_page)) = Ok (Some i) /\
+    PG.C18.Model.ParseIndexFile (exact (zeros 8192 ++ PG.C10.IndexLocal.bt_leaf_page)) = Ok (Some i') /\
+    option_map (fun e => (PG.C18.Types.pi_type e, PG.C18.Types.pi_leaf e)) (nth_error (PG.C18.Types.ii_pages i) 1) = Some (1, true) /\
+    option_map (fun e => (PG.C18.Types.pi_type e, PG.C18.Types.pi_leaf e)) (nth_error (PG.C18.Types.ii_pages i') 1) = Some (0, false).
+Proof. exact PG.C10.IndexLocal.index_page0_dependency. Qed.
+Print Assumptions C10_index_entry_local.
+Print Assumptions C10_index_page_damage_local.
+Print Assumptions C10_index_page0_local_refuted.
+
+(* ---- cost: output sizes (and with them the loop counts) for ALL byte strings ---- *)
+(* one WAL record per 24 input bytes at most; per page at most (len-24)/24 = 340 *)
+Theorem C10_cost_ParseWALFile : forall s l,
+  PG.C17.Model.ParseWALFile s = Ok (Some (PG.C17.Model.FRecs l)) -> Z.of_nat (length l) <= len s / 24.
+Proof. exact PG.C10.Cost2.wal_output_linear. Qed.
+Theorem C10_cost_parseWALPage : forall s base l,
+  PG.C17.Model.parseWALPage s base = Ok (Some (PG.C17.Model.PRecs l)) -> 24 * Z.of_nat (length l) <= Z.max 0 (len s - 24).
+Proof. exact PG.C10.Cost2.wal_page_output_bound. Qed.
+(* exactly one index entry per complete page *)
+Theorem C10_cost_ParseIndexFile : forall s info,
+  PG.C18.Model.ParseIndexFile s = Ok (Some info) ->
+  Z.of_nat (length (PG.C18.Types.ii_pages info)) = len s / 8192 /\ PG.C18.Types.ii_total info = len s / 8192.
+Proof. exact PG.C10.Cost2.index_output_exact. Qed.
+(* never more than 62 relation mappings (and never more than the stored count) *)
+Theorem C10_cost_ParseRelMapFile : forall s rm,
+  PG.C20.RelmapModel.ParseRelMapFile s = Ok (inr rm) ->
+  Z.of_nat (length (PG.C20.RelmapModel.rm_mappings rm)) <= 62 /\
+  Z.of_nat (length (PG.C20.RelmapModel.rm_mappings rm)) <= PG.C20.RelmapModel.rm_num rm.
+Proof. exact PG.C10.Cost2.relmap_output_bound. Qed.
+(* at most one TOAST chunk / one role per heap entry, hence per 4 input bytes *)
+Theorem C10_cost_ReadTOASTTable : forall s cs,
+  PG.C08.TableModel.ReadTOASTTable s = Ok cs -> Z.of_nat (length cs) <= len s / 4.
+Proof. exact PG.C10.Cost2.toast_table_output_linear. Qed.
+Theorem C10_cost_ParsePGAuthID : forall s l,
+  PG.C14.Model.ParsePGAuthID s = Ok l -> Z.of_nat (length l) <= len s / 4.
+Proof. exact PG.C10.Cost2.authid_output_linear. Qed.
+Print Assumptions C10_cost_ParseWALFile.
+Print Assumptions C10_cost_ParseIndexFile.
+Print Assumptions C10_cost_ParseRelMapFile.
+Print Assumptions C10_cost_ReadTOASTTable.
+Print Assumptions C10_cost_ParsePGAuthID.
